@@ -22,43 +22,18 @@ func (pool *TxPool) VerifC17Reset() {
 
 // VerifC17View is a copy of the pool's internal indexes taken under pool.mu.
 type VerifC17View struct {
-	Pending       map[common.Address][]common.Hash // nonce-sorted
-	Queue         map[common.Address][]common.Hash // nonce-sorted
-	AllLocals     []common.Hash                    // lookup index, local half
-	AllRemotes    []common.Hash                    // lookup index, remote half
-	AllSlots      int
-	Priced        []common.Hash             // every entry of the remote price heap (stale ones included)
-	PendingNonces map[common.Address]uint64 // for the addresses asked for
-	BeatOrder     []common.Address          // addresses with a heartbeat, oldest first (ties by address)
-	Locals        []common.Address
-	StateNonces   map[common.Address]uint64 // pool.currentState, for the addresses asked for
-	CurrentMaxGas uint64
+	AllLocals  []common.Hash // lookup index, local half
+	AllRemotes []common.Hash // lookup index, remote half
+	AllSlots   int
+	Priced     []common.Hash    // every entry of the remote price heap (stale ones included)
+	BeatOrder  []common.Address // addresses with a heartbeat, oldest first (ties by address)
 }
 
 // VerifC17View copies the internal indexes.
-func (pool *TxPool) VerifC17View(addrs []common.Address) *VerifC17View {
+func (pool *TxPool) VerifC17View() *VerifC17View {
 	pool.mu.Lock()
 	defer pool.mu.Unlock()
-	v := &VerifC17View{
-		Pending:       map[common.Address][]common.Hash{},
-		Queue:         map[common.Address][]common.Hash{},
-		PendingNonces: map[common.Address]uint64{},
-		StateNonces:   map[common.Address]uint64{},
-		CurrentMaxGas: pool.currentMaxGas,
-	}
-	hashes := func(txs types.Transactions) []common.Hash {
-		out := make([]common.Hash, len(txs))
-		for i, tx := range txs {
-			out[i] = tx.Hash()
-		}
-		return out
-	}
-	for a, l := range pool.pending {
-		v.Pending[a] = hashes(l.Flatten())
-	}
-	for a, l := range pool.queue {
-		v.Queue[a] = hashes(l.Flatten())
-	}
+	v := &VerifC17View{}
 	pool.all.Range(func(h common.Hash, tx *types.Transaction, local bool) bool {
 		if local {
 			v.AllLocals = append(v.AllLocals, h)
@@ -71,10 +46,6 @@ func (pool *TxPool) VerifC17View(addrs []common.Address) *VerifC17View {
 	for _, tx := range *pool.priced.remotes {
 		v.Priced = append(v.Priced, tx.Hash())
 	}
-	for _, a := range addrs {
-		v.PendingNonces[a] = pool.pendingNonces.get(a)
-		v.StateNonces[a] = pool.currentState.GetNonce(a)
-	}
 	for a := range pool.beats {
 		v.BeatOrder = append(v.BeatOrder, a)
 	}
@@ -85,9 +56,6 @@ func (pool *TxPool) VerifC17View(addrs []common.Address) *VerifC17View {
 		}
 		return string(v.BeatOrder[i][:]) < string(v.BeatOrder[j][:])
 	})
-	for a := range pool.locals.accounts {
-		v.Locals = append(v.Locals, a)
-	}
 	return v
 }
 
